@@ -44,6 +44,8 @@ class Ctx:
         self.meta = {}           # (account, key) -> text
         self.features = set()
         self.n = 0
+        self.wide_budget = 2       # at most two wide constructs per script (a wide one has leaves only)
+        self.extra_accounts = ["m%d" % i for i in range(profile.get("pool", 0))]
 
     def fresh(self, prefix):
         self.n += 1
@@ -105,7 +107,9 @@ def pick_amount(ctx, around=None):
         return 0
     if x < 0.46 and ctx.p.get("big", 0.1) > 0:
         # beyond one machine word; often an exact multiple of 2^64 (low word zero) or of 2^32
-        return r.choice([BIG + r.randrange(0, 1000), BIG, 2 * BIG, 3 * BIG, BIG * BIG, 2 ** 63, 2 ** 32, 5 * 2 ** 32])
+        return r.choice([BIG + r.randrange(0, 1000), BIG, 2 * BIG, 3 * BIG, BIG * BIG, 2 ** 63, 2 ** 32, 5 * 2 ** 32,
+                         # just below one machine word: a product with a small numerator, or a sum of two, crosses 2^63 / 2^64
+                         2 ** 62, 2 ** 62 + 1, 3 * 2 ** 61 + 1, 4 * 10 ** 18, 10 ** 19 // 3, 2 ** 63 - 1, 2 ** 61 + r.randrange(0, 1000)])
     if x < 0.85:
         return r.randrange(1, 20)
     return r.randrange(1, 120)
@@ -113,7 +117,22 @@ def pick_amount(ctx, around=None):
 
 # ---------------------------------------------------------------- expressions
 
+WIDE = [5, 6, 7, 8, 9, 15, 16, 17, 31, 32, 33, 63, 64, 65, 100, 129, 257]
+
+
+def count(ctx, choices):
+    """how many clauses / sub-sources / statements: from the given small choices, or (profile `wide`) a count around
+    the sizes at which arrays turn into maps, buffers fill up and narrow counters wrap"""
+    if ctx.p.get("wide") and ctx.wide_budget > 0 and ctx.chance("wide", 0.0):
+        ctx.wide_budget -= 1
+        ctx.features.add("wide")
+        return ctx.rng.choice(WIDE)
+    return ctx.rng.choice(choices)
+
+
 def gen_account(ctx, pool):
+    if ctx.extra_accounts:
+        pool = pool + ctx.extra_accounts
     name = ctx.rng.choice(pool)
     if ctx.chance("acct_var", 0.3):
         return ctx.declare("account", ('account', name), name), name
@@ -269,8 +288,12 @@ def gen_source(ctx, asset, depth, need, safe=False):
             return "%s allowing overdraft up to %s" % (txt, gen_monetary(ctx, asset, od)), ('acct', name, od)
         return txt, ('acct', name, 0)
     if x < 0.7:
-        n = r.choice([0, 1, 2, 2, 3, 3])
-        subs = [gen_source(ctx, asset, depth - 1, need, safe) for _ in range(n)]
+        n = count(ctx, [0, 1, 2, 2, 3, 3])
+        subs = [gen_source(ctx, asset, (depth - 1) if n <= 4 else 0, need, safe) for _ in range(n)]
+        if n > 4 and r.random() < 0.7:
+            # many small capped draws: every sub-source contributes (as many senders as sub-sources)
+            c = ((need or n) // n) + r.choice([0, 1, 1])
+            subs = [(("max [%s %d] from %s" % (asset, c, t), ('capped', c, s_)) if r.random() < 0.85 else (t, s_)) for t, s_ in subs]
         if n >= 1 and ctx.chance("free_prefix", 0.12):
             # a few draws that consult no balance (a capped @world, a capped unbounded overdraft) in front of the accounts:
             # they push senders without touching the per-account bookkeeping the later sources rely on
@@ -293,11 +316,11 @@ def gen_source(ctx, asset, depth, need, safe=False):
         if cap < 0:
             ctx.features.add("negative-cap-src")
         return "max %s from %s" % (gen_monetary(ctx, asset, cap), t), ('capped', cap, s)
-    k = r.choice([1, 2, 2, 3, 3, 4])
+    k = count(ctx, [1, 2, 2, 3, 3, 4])
     portions = gen_portions(ctx, k)
     items = []
     for ptxt, q in portions:
-        t, s = gen_source(ctx, asset, depth - 1, need)
+        t, s = gen_source(ctx, asset, (depth - 1) if k <= 4 else 0, need)
         items.append((ptxt, q, t, s))
     ctx.features.add("src-allot")
     return "{ " + " ".join("%s from %s" % (pt, t) for pt, q, t, s in items) + " }", \
@@ -321,7 +344,9 @@ def gen_dest(ctx, asset, depth, amount):
         txt, name = gen_account(ctx, DESTS)
         return txt, ('acct', name)
     if x < 0.75:
-        n = r.choice([0, 1, 1, 2, 3])
+        n = count(ctx, [0, 1, 1, 2, 3])
+        if n > 4:
+            depth = 1
         clauses = []
         for _ in range(n):
             cap = r.choice([0, 1, 2, 5, 10, -5]) if r.random() < 0.6 else pick_amount(ctx, amount)
@@ -339,7 +364,9 @@ def gen_dest(ctx, asset, depth, amount):
             # whose target is evaluated even for a zero amount
             return text, ('allot', [(None, rd)])
         return text, ('inorder', [c for _, c in clauses], rd)
-    k = r.choice([1, 2, 2, 3, 4])
+    k = count(ctx, [1, 2, 2, 3, 4])
+    if k > 4:
+        depth = 1
     portions = gen_portions(ctx, k)
     items = []
     for ptxt, q in portions:
@@ -370,6 +397,42 @@ BAD_ARGS = [  # a call whose FIRST argument fails to evaluate while the later on
 ]
 
 
+def gen_wide_send(ctx, asset, k=None, world_tail=False, reuse=None):
+    """a send that really draws on k sources: k small capped draws, the amount is what they add up to"""
+    r = ctx.rng
+    k = k or r.choice(WIDE + [15, 16, 17, 17, 18, 18, 19, 20])
+    c = r.choice([1, 1, 2, 3])
+    n = k * c - r.choice([0, 0, 0, 1, c])
+    subs = []
+    ub = r.choice([0.1, 0.5, 0.9])          # how many of the draws consult no balance
+    for _ in range(k):
+        t, s_ = gen_source(ctx, asset, 0, c)
+        if reuse and r.random() < 0.85:
+            nm = r.choice(reuse)                    # the accounts the previous wide statement drew on
+            t, s_ = "@" + nm, ('acct', nm, 0)
+        if s_[0] == 'acct' and s_[1] != 'world' and r.random() < ub:
+            t, s_ = "@%s allowing unbounded overdraft" % s_[1], ('unb', s_[1])
+        subs.append(("max [%s %d] from %s" % (asset, c, t), ('capped', c, s_)))
+    y = r.random()
+    if y < 0.35 or world_tail:
+        subs.append(("@world", ('acct', 'world', 0)))
+    elif y < 0.8:
+        # after the k small draws, some of the same accounts without a cap, for more than the draws add up to: they are
+        # drawn to what they have left (their balance, less what this statement and the earlier ones already took)
+        used = [s_[2][1] for _, s_ in subs if s_[2][0] in ('acct', 'unb') and s_[2][1] != 'world'] or ["a"]
+        for nm in r.sample(used, min(len(used), r.choice([1, 1, 2, 3]))):
+            subs.append(("@" + nm, ('acct', nm, 0)))
+        n += r.choice([1, 5, 50, 1000])
+        if r.random() < 0.4:
+            subs.append(("@world", ('acct', 'world', 0)))
+    st, rs = "{ " + " ".join(t for t, _ in subs) + " }", ('inorder', [s_ for _, s_ in subs])
+    dt, rd = gen_dest(ctx, asset, ctx.p.get("ddepth", 2), n)
+    ctx.features.add("wide-send")
+    ctx.features.add("send")
+    return "send %s (\n  source = %s\n  destination = %s\n)" % (gen_monetary(ctx, asset, n), st, dt), \
+        ('send', asset, n, rs, rd)
+
+
 def gen_statement(ctx):
     r = ctx.rng
     if ctx.chance("bad_call", 0.0):
@@ -396,8 +459,24 @@ def gen_statement(ctx):
         if ctx.chance("negative_amount", 0.02):
             n = -r.randrange(1, 10)
             ctx.features.add("negative-amount")
+        if ctx.p.get("wide") and ctx.wide_budget > 0 and ctx.chance("wide_send", 0.0):
+            ctx.wide_budget -= 1
+            return gen_wide_send(ctx, asset)
         st, rs = gen_source(ctx, asset, ctx.p.get("depth", 3), n)
         dt, rd = gen_dest(ctx, asset, ctx.p.get("ddepth", 2), n)
+        if ctx.p.get("deep") and ctx.chance("deep", 0.0):
+            # many levels of nesting around the source or the destination (blocks and caps that change nothing)
+            levels = r.choice([9, 17, 33, 65])
+            ctx.features.add("deep-nesting")
+            if r.random() < 0.5:
+                for i in range(levels):
+                    if i % 2:
+                        st, rs = "{ %s }" % st, ('inorder', [rs])
+                    else:
+                        st, rs = "max [%s 1000000] from %s" % (asset, st), ('capped', 1000000, rs)
+            else:
+                for i in range(levels):
+                    dt, rd = "{ max [%s 0] to @x remaining to %s }" % (asset, dt), ('inorder', [(0, ('to', ('acct', 'x')))], ('to', rd))
         ctx.features.add("send")
         return "send %s (\n  source = %s\n  destination = %s\n)" % (gen_monetary(ctx, asset, n), st, dt), \
             ('send', asset, n, rs, rd)
@@ -430,6 +509,10 @@ def gen_statement(ctx):
     return 'set_account_meta(%s, "%s", %s)' % (at, key, vt), ('accmeta', name, key, render_value(v))
 
 
+WORD_EDGES = [2 ** 63 - 1, 2 ** 63, 2 ** 63 + 1, 2 ** 64 - 1, 2 ** 64, 2 ** 64 + 1, -(2 ** 63), -(2 ** 63) - 1, -(2 ** 64 - 1), -(2 ** 64),
+              2 ** 31, 2 ** 32, 2 ** 53 + 1, 10 ** 19, 10 ** 30, 3 * 2 ** 62]
+
+
 def gen_meta_value(ctx):
     r = ctx.rng
     k = r.choice(["string", "number", "monetary", "account", "asset", "portion"])
@@ -439,9 +522,17 @@ def gen_meta_value(ctx):
             return ctx.declare("string", ('string', s), s), ('string', s)
         return '"%s"' % s, ('string', s)
     if k == "number":
+        if r.random() < 0.25:
+            n = r.choice(WORD_EDGES)        # (through a variable: a literal that large is a known finding)
+            ctx.features.add("meta-word-edge")
+            return ctx.declare("number", ('number', n), str(n)), ('number', n)
         n = r.choice([0, 1, 42, -7])
         return gen_number_text(ctx, n), ('number', n)
     if k == "monetary":
+        if r.random() < 0.25:
+            n = r.choice(WORD_EDGES)
+            ctx.features.add("meta-word-edge")
+            return ctx.declare("monetary", ('monetary', "USD", n), "USD %d" % n), ('monetary', "USD", n)
         n = r.choice([0, 5, 100])
         return gen_monetary(ctx, "USD", n), ('monetary', "USD", n)
     if k == "account":
@@ -468,11 +559,20 @@ def gen_case(seed, index, profile=None):
     rng = random.Random("%s/%s" % (seed, index))
     ctx = Ctx(rng, p)
     nst = rng.randrange(1, p["stmts_max"] + 1)
+    if p.get("wide") and rng.random() < 0.15:
+        nst = rng.choice([9, 17, 33, 65, 100, 130, 257, 300])          # many statements (small ones)
+        ctx.wide_budget = 0
+        if nst > 65:
+            ctx.p = dict(p, depth=1, ddepth=1)
+        ctx.features.add("many-statements")
 
     # balances: small pool, steered towards interesting relations
-    for a in ACCOUNTS + ["x"]:
+    for a in ACCOUNTS + ["x"] + ctx.extra_accounts:
         for c in (ASSETS3 if p.get("multi_asset") else ASSETS):
             x = rng.random()
+            if a in ctx.extra_accounts and x < 0.8:
+                ctx.balances[(a, c)] = rng.choice([3, 10, 10, 50, 100])      # the many extra accounts mostly hold something
+                continue
             if x < p.get("neg_balance", 0.12):
                 v = -rng.randrange(1, 30)
                 ctx.features.add("negative-balance")
@@ -489,6 +589,17 @@ def gen_case(seed, index, profile=None):
             ctx.balances[(a, c)] = v
 
     stmts = [gen_statement(ctx) for _ in range(nst)]
+    if p.get("wide") and ctx.chance("wide_pair", 0.0):
+        # two wide sends of the same asset, one after the other, of nearly the same width: what the first leaves behind
+        # (stacks, indexes, buffers sized for it) meets a second statement of the same size
+        asset = rng.choice(ASSETS)
+        k1 = rng.choice([15, 16, 17, 17, 18, 19, 31, 32, 33, 34, 63, 64, 65, 66, 100, 130])
+        k2 = max(2, k1 + rng.choice([-2, -1, 0, 0, 1, 1, 2, 5, 20]))
+        first = gen_wide_send(ctx, asset, k1, world_tail=rng.random() < 0.8)
+        names = []
+        walk_sources(first[1][3], lambda nd: names.append(nd[1]) if nd[0] in ('acct', 'unb') and nd[1] != 'world' else None)
+        stmts = [first, gen_wide_send(ctx, asset, k2, reuse=(names if rng.random() < 0.7 else None))] + stmts[:1]
+        ctx.features.add("wide-pair")
 
     # carry-over shape: an account that a later statement reads is first overdrawn without bound (or emptied),
     # often with no stored entry at all, so that the only record of the debt is the interpreter's own
@@ -506,6 +617,29 @@ def gen_case(seed, index, profile=None):
             ctx.features.add("debt-first")
             stmts.insert(0, ("send [%s %d] (\n  source = @%s allowing unbounded overdraft\n  destination = @y\n)" % (asset, n, acc),
                              ('send', asset, n, ('unb', acc), ('acct', 'y'))))
+
+    # padded front: K filler statements before the script proper — payments out of @world into the accounts the script
+    # uses (which thereby first appear as receivers), debts of accounts with unbounded overdraft, metadata — so that the
+    # script's own statements come 16th, 64th, 256th… and meet accounts already credited but never fetched
+    if ctx.p.get("pad_front") and ctx.chance("pad_front", 0.0):
+        k = rng.choice([15, 16, 17, 31, 33, 63, 64, 65, 100, 255, 256, 257, 300])
+        pool = ACCOUNTS + ["x"] + ctx.extra_accounts[:3]
+        fill = []
+        for j in range(k):
+            a, asset = rng.choice(pool), rng.choice(ASSETS)
+            y = rng.random()
+            n = rng.choice([1, 1, 2, 5])
+            if y < 0.6:
+                fill.append(("send [%s %d] (\n  source = @world\n  destination = @%s\n)" % (asset, n, a),
+                             ('send', asset, n, ('acct', 'world', 0), ('acct', a))))
+            elif y < 0.8:
+                fill.append(("send [%s %d] (\n  source = @%s allowing unbounded overdraft\n  destination = @fz\n)" % (asset, n, a),
+                             ('send', asset, n, ('unb', a), ('acct', 'fz'))))
+            else:
+                fill.append(("send [%s %d] (\n  source = @world\n  destination = @fz\n)" % (asset, n),
+                             ('send', asset, n, ('acct', 'world', 0), ('acct', 'fz'))))
+        stmts = fill + stmts
+        ctx.features.add("padded-front")
 
     # merge-then-reuse shape: a monetary variable caps a clause whose receiver is also the next receiver (the two
     # postings are merged into one), more is sent than the cap, and the variable is read again afterwards
